@@ -236,14 +236,14 @@ def run(ctx, replay=None):
     jobs = []
     for k in range(1, ctx.pick(3, 4) + 1):
         tuples = itertools.product(range(len(alpha)), repeat=k)
-        if len(alpha) ** k > 40000:       # the longest length of the thorough tier: a 40 000-model sample (memory)
-            tuples = rnd.sample(list(tuples), 40000)
-            ctx.notes['sampled_models_of_length_%d' % k] = 40000
+        if len(alpha) ** k > 20000:       # the longest length of the thorough tier: a 20 000-model sample (memory)
+            tuples = rnd.sample(list(tuples), 20000)
+            ctx.notes['sampled_models_of_length_%d' % k] = 20000
         for ix in tuples:
             jobs.append(([alpha[i] for i in ix],))
     cases = [c for cs in F.pmap(alpha_job, jobs) for c in cs]
     nalpha = len(jobs)
-    cases += [c for cs in F.pmap(rand_job, [(ctx.seed * 104729 + i,) for i in range(ctx.pick(2500, 60000))]) for c in cs]
+    cases += [c for cs in F.pmap(rand_job, [(ctx.seed * 104729 + i,) for i in range(ctx.pick(2500, 25000))]) for c in cs]
     cases += shipped()
     ctx.notes['models_linted_again_in_other_processes'] = other_processes(cases, ctx.pick(1500, 20000))
     F.judge(ctx, 'Trace_Lint', cases, canaries, key_fields=('kind', 'model', 'warning'),
@@ -259,6 +259,6 @@ def run(ctx, replay=None):
         if not kinds.get(need):
             ctx.vacuous(f'vacuity: no {need} warning in the sample')
     ctx.notes.update({'alphabet_models': nalpha, 'warnings_by_kind': kinds, 'edits_run': edits})
-    return F.finish(ctx, rule='every statement list <= %d over the jump alphabet (the longest length sampled when it exceeds 40 000 models), random jump models with duplicate labels / dangling jumps / '
+    return F.finish(ctx, rule='every statement list <= %d over the jump alphabet (the longest length sampled when it exceeds 20 000 models), random jump models with duplicate labels / dangling jumps / '
                     'duplicate functions and arguments, parsed random structured programs, the shipped scripts; for every actionable '
                     'warning the edited real model is run against the original' % ctx.pick(3, 4), exhaustive=True)
